@@ -19,6 +19,10 @@ func parseSingleCond(condData []byte, indexCond *rockredis.IndexCondition) ([]by
 	condData = bytes.TrimSpace(condData)
 	var field []byte
 	if pos := bytes.Index(condData, []byte("=")); pos != -1 {
+		if pos == 0 {
+			// no field name before the operator
+			return nil, common.ErrInvalidArgs
+		}
 		if condData[pos-1] == '<' {
 			indexCond.EndKey = condData[pos+1:]
 			indexCond.IncludeEnd = true
